@@ -90,7 +90,8 @@ PROPS = {
     },
     "C18": {
         "level": "exploration",
-        "explanation": "reductions: bounded contracts against NumPy over chunkings, axes, keepdims and split_every; tree depth bound",
+        "explanation": "reductions: bounded contracts against NumPy over chunkings, axes, keepdims and split_every; the block structure of the "
+                       "reduction tree (one layer, and the cascade reaching one block) is proved at rank 1 given the bounded-checked depth bound",
     },
     "C19": {
         "level": "proof",
